@@ -115,6 +115,10 @@ Print Assumptions C17_read_object_header_run.
 Theorem C17_global_heap_strict : forall sb fuel addr, strict (p_gheap sb fuel addr).
 Proof. exact p_gheap_strict. Qed.
 Print Assumptions C17_global_heap_strict.
+(* variable-length strings of attributes / compound members: reference -> collection -> object *)
+Theorem C17_vlen_string_strict : forall sb fuel ref, strict (api_vlen_string sb fuel ref).
+Proof. exact api_vlen_string_strict. Qed.
+Print Assumptions C17_vlen_string_strict.
 Theorem C17_local_heap_strict : forall sb addr, strict (p_local_heap sb addr).
 Proof. exact p_local_heap_strict. Qed.
 Print Assumptions C17_local_heap_strict.
